@@ -41,11 +41,14 @@ def one(ctx: Ctx, cs, pname, over, core=True, max_sets=24):
         for r in range(0, min(5, len(bars)) + 1):
             cutsets += [list(c) for c in itertools.combinations(bars, r)]
     else:
-        cutsets = [[]] + [[b] for b in bars]
+        if len(bars) > 40:
+            max_sets = 3     # long scores: every concat re-imports growing prefixes, keep the number of cut sets small
+        singles = bars if len(bars) <= 12 else sorted(set(bars[:1] + bars[-2:] + bars[9:10] + bars[99:100] + rng.sample(bars, 2)))
+        cutsets = [[]] + [[b] for b in singles]
         for _ in range(max_sets):
             cutsets.append(sorted(rng.sample(bars, rng.randint(2, 5))))
-    if len(cutsets) > max_sets + len(bars) + 1:
-        cutsets = cutsets[:1] + rng.sample(cutsets[1:], max_sets + len(bars))
+    if len(cutsets) > max_sets + min(len(bars), 14) + 1:
+        cutsets = cutsets[:1] + rng.sample(cutsets[1:], max_sets + min(len(bars), 14))
     ref_snap = kpx.snapshot(d)
     full = sc.full
     for ci, cuts in enumerate(cutsets):
@@ -130,7 +133,7 @@ def run(ctx: Ctx):
                 'fragment i taken from the abstract cut. Non-trivial = inner fragment of a >= 3-fragment cut whose pair reproduced its data '
                 'lines; distinct by (document, cut set, separator, fragment).')
     ctx.assumptions = ['cuts are made before barline rows only (the property\'s domain)']
-    n = 45 if ctx.tier == 'quick' else 200
+    n = 36 if ctx.tier == 'quick' else 200
     i = 0
     for cs in cases(ctx, 'c07', n):
         pname, over = MC.PROFILES[i % len(MC.PROFILES)]
